@@ -690,11 +690,174 @@ Proof.
     split; [symmetry; exact Ed|]. split; [exact Hfsr|].
     split. { unfold rp_idle_ts. rewrite Han. split; [reflexivity|]. destruct Hut as [-> | ->]; [exact I|reflexivity]. }
     left. cbn [rp_fx wm_fx_fsr wm_fx_base wm_fx_tk].
-    split; [reflexivity|]. split. { split; [exact Hb'|]. split; [exact Htok|]. split; [exact Htyk|]. split; [exact Hoffs|]. split; [rewrite Hdh; reflexivity|reflexivity]. }
+    split; [reflexivity|]. split. { unfold rf_fresh. cbn [rp_fx wm_fx_fsr wm_fx_base wm_fx_tk]. split; [exact Hb'|]. split; [exact Htok|]. split; [exact Htyk|]. split; [exact Hoffs|]. split; [rewrite Hdh; reflexivity|reflexivity]. }
     split; [reflexivity|]. split; [cbv; reflexivity|].
-    split. { unfold rf_out. cbn [wm_fx_base]. fold (rp_bout (wm_st_base (fst (wm_api_signal_def st d0)))). rewrite Hout, filter_app.
+    split. { unfold rf_out. cbn [rp_fx wm_fx_base]. unfold rp_bout in Hout, Hpl, Hnew. rewrite Hout, filter_app.
              rewrite (rp_filter_none _ _ (rp_plain_Forall d _ Hnew)), (rp_filter_none _ _ (rp_plain_Forall d _ Hpl)). reflexivity. }
     split; [reflexivity|]. split; [reflexivity|]. exists stm. split; [exact Hpy|exact Hcl].
+Qed.
+
+
+(* ---- jls_wr_close ---- *)
+Lemma rp_get_level_none : forall f level, wm_f_levels f = repeat None 16 -> wm_f_get_level f level = None.
+Proof.
+  intros f level H. unfold wm_f_get_level. rewrite H.
+  destruct (nth_in_or_default (N.to_nat level) (repeat (@None wm_flevel) 16) None) as [Hin|E0]; [apply repeat_spec in Hin; exact Hin|exact E0].
+Qed.
+Lemma rp_ts_get_none : forall ts level, wm_ts_levels ts = repeat None 16 -> wm_ts_get ts level = None.
+Proof.
+  intros ts level H. unfold wm_ts_get. rewrite H.
+  destruct (nth_in_or_default (N.to_nat level) (repeat (@None wm_ts_level) 16) None) as [Hin|E0]; [apply repeat_spec in Hin; exact Hin|exact E0].
+Qed.
+
+Lemma rp_fsr_close_idle : forall d' x, wm_f_alloc (wm_fx_fsr x) = false -> wm_f_levels (wm_fx_fsr x) = repeat None 16 ->
+  wm_fsr_close summ1 summN d' x = x.
+Proof.
+  intros d' x Ha Hl. unfold wm_fsr_close. rewrite Ha.
+  assert (H : forall l, fold_left (wm_fsr_summary_close summN d') l x = x).
+  { induction l as [|lv l IH]; [reflexivity|]. cbn [fold_left]. unfold wm_fsr_summary_close at 2. rewrite (rp_get_level_none _ lv Hl). exact IH. }
+  apply H.
+Qed.
+Lemma rp_commit_none : forall fuel id close level x, wm_ts_get (wm_tx_ts x) level = None -> wm_ts_commit (S fuel) id close level x = x.
+Proof. intros fuel id close level x H. cbn [wm_ts_commit]. rewrite H. reflexivity. Qed.
+Lemma rp_ts_close_gen : forall n id x l, wm_ts_levels (wm_tx_ts x) = repeat None 16 ->
+  fold_left (fun x level => wm_ts_commit (S n) id true level x) l x = x.
+Proof.
+  intros n id x l Hl. induction l as [|lv l IH]; [reflexivity|]. cbn [fold_left].
+  rewrite rp_commit_none by (apply rp_ts_get_none; exact Hl). exact IH.
+Qed.
+Lemma rp_ts_close_idle : forall id x, wm_ts_levels (wm_tx_ts x) = repeat None 16 -> wm_ts_close id x = x.
+Proof. intros id x Hl. exact (rp_ts_close_gen 15 id x wm_close_levels Hl). Qed.
+
+(* closing a signal that never received data changes nothing in the file *)
+Lemma rp_close_signal_idle : forall st id s, wm_find_sig st id = Some s -> rp_idle s ->
+  exists s3, wm_close_signal summ1 summN st id = wm_put_sig st (wm_st_base st) s3 /\ wm_sig_id s3 = wm_sig_id s /\ rp_idle s3.
+Proof.
+  intros st id s Hf (I1 & I2 & I3). unfold wm_close_signal. rewrite Hf.
+  set (r1 := match wm_sg_fsr s with
+             | None => (wm_st_base st, s)
+             | Some f => let x := wm_fsr_close summ1 summN (wm_sg_def s) {| wm_fx_base := wm_st_base st; wm_fx_tk := wm_sg_tk_fsr s; wm_fx_fsr := f |} in
+                         (wm_fx_base x, wm_sg_set_fsr s (wm_fx_tk x) None) end).
+  assert (E1 : exists s1, r1 = (wm_st_base st, s1) /\ wm_sig_id s1 = wm_sig_id s /\ wm_sg_anno s1 = wm_sg_anno s /\ wm_sg_utc s1 = wm_sg_utc s /\
+                          (match wm_sg_fsr s1 with None => True | Some f => wm_f_alloc f = false /\ wm_f_levels f = repeat None 16 end)).
+  { subst r1. destruct (wm_sg_fsr s) as [f|] eqn:Ef.
+    - destruct I1 as (Ia & Il). rewrite rp_fsr_close_idle by assumption. cbn [wm_fx_base wm_fx_tk]. eexists. split; [reflexivity|]. repeat split.
+    - exists s. rewrite Ef. repeat split. }
+  destruct E1 as (s1 & -> & Eid1 & Ean1 & Eut1 & If1).
+  set (r2 := match wm_sg_anno s1 with
+             | None => (wm_st_base st, s1)
+             | Some ts => let x := wm_ts_close id {| wm_tx_base := wm_st_base st; wm_tx_tk := wm_sg_tk_anno s1; wm_tx_ts := ts |} in
+                          (wm_tx_base x, wm_sg_set_anno s1 (wm_tx_tk x) None) end).
+  assert (E2 : exists s2, r2 = (wm_st_base st, s2) /\ wm_sig_id s2 = wm_sig_id s /\ wm_sg_utc s2 = wm_sg_utc s /\ wm_sg_fsr s2 = wm_sg_fsr s1 /\
+                          (match wm_sg_anno s2 with None => True | Some ts => wm_ts_levels ts = repeat None 16 end)).
+  { subst r2. rewrite Ean1. destruct (wm_sg_anno s) as [ts|] eqn:Ea.
+    - rewrite rp_ts_close_idle by exact I2. cbn [wm_tx_base wm_tx_tk]. eexists. split; [reflexivity|]. repeat split; assumption.
+    - exists s1. rewrite Ean1. repeat split; assumption. }
+  destruct E2 as (s2 & -> & Eid2 & Eut2 & Efs2 & Ia2).
+  set (r3 := match wm_sg_utc s2 with
+             | None => (wm_st_base st, s2)
+             | Some ts => let x := wm_ts_close id {| wm_tx_base := wm_st_base st; wm_tx_tk := wm_sg_tk_utc s2; wm_tx_ts := ts |} in
+                          (wm_tx_base x, wm_sg_set_utc s2 (wm_tx_tk x) None) end).
+  assert (E3 : exists s3, r3 = (wm_st_base st, s3) /\ wm_sig_id s3 = wm_sig_id s /\ rp_idle s3).
+  { subst r3. rewrite Eut2. destruct (wm_sg_utc s) as [ts|] eqn:Eu.
+    - rewrite rp_ts_close_idle by exact I3. cbn [wm_tx_base wm_tx_tk]. eexists. split; [reflexivity|]. split; [exact Eid2|].
+      unfold rp_idle. cbn [wm_sg_set_utc wm_sg_fsr wm_sg_anno wm_sg_utc]. rewrite Efs2. split; [exact If1|]. split; [exact Ia2|exact I].
+    - exists s2. split; [reflexivity|]. split; [exact Eid2|]. unfold rp_idle. rewrite Efs2, Eut2. split; [exact If1|]. split; [exact Ia2|exact I]. }
+  destruct E3 as (s3 & -> & Eid3 & Hi3). exists s3. split; [reflexivity|]. split; assumption.
+Qed.
+
+
+(* the close phase: the target still open (no call left), or closed *)
+Definition rp_G1c (T0 : Z) (BLKS : list (list N)) (stf : py_wr) (st : wm_state) : Prop :=
+  Forall (fun s => wm_sig_id s = sid \/ rp_idle s) (wm_st_sigs st) /\
+  exists s f, wm_find_sig st sid = Some s /\ wm_sg_def s = d /\ wm_sg_fsr s = Some f /\ rp_idle_ts s /\
+              rp_FInv d pos0 T0 BLKS stf (rp_fx st s f) [].
+Definition rp_done (T0 : Z) (BLKS : list (list N)) (stf : py_wr) (st : wm_state) : Prop :=
+  rf_bok (wm_st_base st) /\ Forall rp_idle (wm_st_sigs st) /\
+  exists cs, Forall2 (rf_chunk_rel d pos0 T0 (map rc_off cs) BLKS) cs (pw_disk stf) /\
+             filter (rf_mine d) (rp_bout (wm_st_base st)) = rev cs.
+
+Lemma rp_G1_G1c : forall T0 BLKS stf st, rp_G1 T0 BLKS stf st [] -> rp_G1c T0 BLKS stf st.
+Proof.
+  intros T0 BLKS stf st (Hoth & Rest). split; [|exact Rest].
+  eapply Forall_impl; [|exact Hoth]. intros s [H|(H & _)]; [left; exact H|right; exact H].
+Qed.
+
+(* closing the target: jls_fsr_close, then nothing for its annotation / UTC tracks *)
+Lemma rp_close_target_eq : forall st s f x', wm_find_sig st sid = Some s -> wm_sg_fsr s = Some f -> wm_sg_def s = d -> rp_idle_ts s ->
+  wm_fsr_close summ1 summN d (rp_fx st s f) = x' ->
+  exists s3, wm_close_signal summ1 summN st sid = wm_put_sig st (wm_fx_base x') s3 /\ wm_sig_id s3 = sid /\ rp_idle s3.
+Proof.
+  intros st s f x' Hfind Hfsr Hdef (Ia & Iu) Hx'. unfold wm_close_signal. rewrite Hfind, Hfsr, Hdef.
+  change {| wm_fx_base := wm_st_base st; wm_fx_tk := wm_sg_tk_fsr s; wm_fx_fsr := f |} with (rp_fx st s f). rewrite Hx'. clear Hx'.
+  set (s1 := wm_sg_set_fsr s (wm_fx_tk x') None).
+  assert (Ean : wm_sg_anno s1 = wm_sg_anno s) by reflexivity. assert (Eut : wm_sg_utc s1 = wm_sg_utc s) by reflexivity.
+  assert (Eid1 : wm_sig_id s1 = sid) by exact (proj1 (rp_find_id st sid s Hfind)).
+  assert (E2 : exists s2, (match wm_sg_anno s1 with
+                           | None => (wm_fx_base x', s1)
+                           | Some ts => let x := wm_ts_close sid {| wm_tx_base := wm_fx_base x'; wm_tx_tk := wm_sg_tk_anno s1; wm_tx_ts := ts |} in
+                                        (wm_tx_base x, wm_sg_set_anno s1 (wm_tx_tk x) None) end) = (wm_fx_base x', s2) /\
+                          wm_sig_id s2 = sid /\ wm_sg_utc s2 = wm_sg_utc s /\ wm_sg_fsr s2 = None /\
+                          (match wm_sg_anno s2 with None => True | Some ts => wm_ts_levels ts = repeat None 16 end)).
+  { rewrite Ean. destruct (wm_sg_anno s) as [ts|] eqn:Ea.
+    - rewrite rp_ts_close_idle by exact Ia. cbn [wm_tx_base wm_tx_tk]. eexists. split; [reflexivity|]. split; [exact Eid1|]. repeat split.
+    - exists s1. split; [reflexivity|]. split; [exact Eid1|]. split; [reflexivity|]. split; [reflexivity|]. rewrite Ean. exact I. }
+  cbv zeta in E2. destruct E2 as (s2 & -> & Eid2 & Eut2 & Efs2 & Ia2).
+  assert (E3 : exists s3, (match wm_sg_utc s2 with
+                           | None => (wm_fx_base x', s2)
+                           | Some ts => let x := wm_ts_close sid {| wm_tx_base := wm_fx_base x'; wm_tx_tk := wm_sg_tk_utc s2; wm_tx_ts := ts |} in
+                                        (wm_tx_base x, wm_sg_set_utc s2 (wm_tx_tk x) None) end) = (wm_fx_base x', s3) /\
+                          wm_sig_id s3 = sid /\ rp_idle s3).
+  { rewrite Eut2. destruct (wm_sg_utc s) as [ts|] eqn:Eu.
+    - rewrite rp_ts_close_idle by exact Iu. cbn [wm_tx_base wm_tx_tk]. eexists. split; [reflexivity|]. split; [exact Eid2|].
+      unfold rp_idle. cbn [wm_sg_set_utc wm_sg_fsr wm_sg_anno wm_sg_utc]. rewrite Efs2. split; [exact I|]. split; [exact Ia2|exact I].
+    - exists s2. split; [reflexivity|]. split; [exact Eid2|]. unfold rp_idle. rewrite Efs2, Eut2. split; [exact I|]. split; [exact Ia2|exact I]. }
+  cbv zeta in E3. destruct E3 as (s3 & -> & Eid3 & Hi3).
+  exists s3. split; [reflexivity|]. split; assumption.
+Qed.
+
+Lemma rp_close_step : forall T0 BLKS stf st id,
+  (rp_G1c T0 BLKS stf st \/ rp_done T0 BLKS stf st) ->
+  let st' := wm_close_signal summ1 summN st id in
+  (rp_G1c T0 BLKS stf st' \/ rp_done T0 BLKS stf st') /\ (id = sid -> rp_done T0 BLKS stf st') /\
+  (rp_done T0 BLKS stf st -> rp_done T0 BLKS stf st').
+Proof.
+  intros T0 BLKS stf st id H st'.
+  assert (Hdone : rp_done T0 BLKS stf st -> rp_done T0 BLKS stf st').
+  { intros (Hb & Hidle & cs & HF & Hfil). subst st'.
+    destruct (wm_find_sig st id) as [s|] eqn:Ef.
+    - destruct (rp_find_id st id s Ef) as (Eid & Hin). rewrite Forall_forall in Hidle.
+      destruct (rp_close_signal_idle st id s Ef (Hidle s Hin)) as (s3 & -> & Eid3 & Hi3).
+      split; [exact Hb|]. split; [|exists cs; split; assumption].
+      unfold wm_put_sig. cbn [wm_st_sigs]. apply Forall_forall. intros y Hy. apply in_map_iff in Hy. destruct Hy as (y0 & <- & Hy0).
+      destruct (wm_sig_id y0 =? wm_sig_id s3); [exact Hi3|apply Hidle; exact Hy0].
+    - unfold wm_close_signal. rewrite Ef. split; [exact Hb|]. split; [exact Hidle|exists cs; split; assumption]. }
+  destruct H as [HG|HD]; [|split; [right; apply Hdone; exact HD|split; [intros _; apply Hdone; exact HD|exact Hdone]]].
+  destruct HG as (Hoth & s & f & Hfind & Hdef & Hfsr & Hits & HF).
+  destruct (N.eq_dec id sid) as [->|Hne].
+  - assert (Hd : rp_done T0 BLKS stf st'); [|split; [right; exact Hd|split; [intros _; exact Hd|exact Hdone]]].
+    (* the target *)
+    destruct (rp_FInv_close summ1 summN d pos0 Hpos0 Hsid Hg_idx Hg_sum Hspd Hw Hg_data Hfill T0 BLKS stf (rp_fx st s f) HF)
+      as (cs & new & HF2 & Hfil & _ & Hbok & _).
+    cbv zeta in HF2, Hfil, Hbok.
+    destruct (rp_close_target_eq st s f _ Hfind Hfsr Hdef Hits eq_refl) as (s3 & Est & Eid3 & Hi3).
+    subst st'. rewrite Est.
+    split; [exact Hbok|]. split.
+    + unfold wm_put_sig. cbn [wm_st_sigs]. apply Forall_forall. intros y Hy. apply in_map_iff in Hy. destruct Hy as (y0 & <- & Hy0).
+      rewrite Forall_forall in Hoth. destruct (N.eqb_spec (wm_sig_id y0) (wm_sig_id s3)) as [E|E]; [exact Hi3|].
+      destruct (Hoth y0 Hy0) as [E'|Hi]; [rewrite Eid3 in E; contradiction|exact Hi].
+    + exists cs. split; [exact HF2|]. exact Hfil.
+  - assert (Hg : rp_G1c T0 BLKS stf st'); [|split; [left; exact Hg|split; [intro E; contradiction|exact Hdone]]].
+    (* another signal: idle *)
+    subst st'. destruct (wm_find_sig st id) as [s'|] eqn:Ef.
+    + destruct (rp_find_id st id s' Ef) as (Eid & Hin). rewrite Forall_forall in Hoth.
+      destruct (Hoth s' Hin) as [E|Hi]; [congruence|].
+      destruct (rp_close_signal_idle st id s' Ef Hi) as (s3 & -> & Eid3 & Hi3).
+      split.
+      * unfold wm_put_sig. cbn [wm_st_sigs]. apply Forall_forall. intros y Hy. apply in_map_iff in Hy. destruct Hy as (y0 & <- & Hy0).
+        destruct (wm_sig_id y0 =? wm_sig_id s3); [right; exact Hi3|apply Hoth; exact Hy0].
+      * exists s, f. split; [rewrite rp_find_put_other by congruence; exact Hfind|]. split; [exact Hdef|]. split; [exact Hfsr|]. split; [exact Hits|exact HF].
+    + unfold wm_close_signal. rewrite Ef. split; [exact Hoth|]. exists s, f. split; [exact Hfind|]. split; [exact Hdef|]. split; [exact Hfsr|]. split; [exact Hits|exact HF].
 Qed.
 
 End RPG.
